@@ -588,6 +588,33 @@ def c01i(ctx):
                         pol = (v != 0 and v != "0") if v != "otherwise" else True
                         if not pol:
                             ctx.fail(o, a, "%s raises the firewall-repair flag when a callee answered that NO repair is needed (inverted test): the repair is skipped exactly when it is required" % nm)
+    # ... and it IS raised there: every test of a per-callee `repair needed` answer has, on its true edge, an assignment of
+    # the constant true (an answer that is looked at and then dropped loses the demand just the same)
+    for nm in ("Snapshot::recompute_decision_based_on_forward_edges", "Snapshot::check_callee_chunked"):
+        b = prog.coroutine_of(nm)
+        trues = b.assigns(lambda st: st["rv"]["k"] == "use" and (st["rv"]["op"].get("c") or {}).get("s") == "true" and not st["lhs"][1])
+
+        def from_field2(l_, depth=3):
+            for st_ in b.assigns(lambda st, l_=l_: st["lhs"][0] == l_ and not st["lhs"][1] and st["rv"]["k"] == "use" and df.op_place(st["rv"]["op"]) is not None):
+                pl_ = df.op_place(st_.node["rv"]["op"])
+                if any(e.startswith("f:repair_transitive_firewall_callees") for e in pl_[1]):
+                    return True
+                if not pl_[1] and depth > 0 and from_field2(pl_[0], depth - 1):
+                    return True
+            return False
+        for sb in df.switches(b):
+            l = op_local(b.blocks[sb]["term"]["op"])
+            if l is None or not from_field2(l):
+                continue
+            n += 1
+            raised = False
+            for v, tb in df.switch_edges(b, sb):
+                pol = (v != 0 and v != "0") if v != "otherwise" else True
+                if pol and any(a.bb == tb or (b.edge_dominates((sb, tb), a.bb) and a.bb in b.reachable([tb])) for a in trues):
+                    raised = True
+            if not raised:
+                ctx.fail(o, Site(b, sb, len(b.blocks[sb]["stmts"])), "%s looks at a callee's `repair needed` answer and does not raise the firewall-repair flag on it: the node is verified "
+                         "clean without repairing the firewalls it newly reaches" % nm)
     o.sites = n
     if n < 5:
         ctx.fail(o, "(program)", "expected >= 5 accumulator fields in the *Decision values of repair.rs, found %d" % n)
